@@ -505,6 +505,15 @@ func genWorld(t *rapid.T, maxFiles int, recCombo, http, shadows bool) *World {
 			w.Files = append(w.Files, sf)
 		}
 	}
+	typeNameFile := false
+	if shadows && npkg <= 1 && len(w.Files) > 0 && len(w.Files[0].Defs) > 0 && !strings.ContainsRune(w.Files[0].Defs[0], 0x130) && !strings.HasPrefix(w.Files[0].Defs[0], "Shared") &&
+		rapid.IntRange(0, 4).Draw(t, "typenamefile") == 0 {
+		// a document whose file name, extension left off, reads exactly like the Go name of a definition of its
+		// referrer (T0Da.json next to the document that defines T0Da): "$ref": "T0Da" is a FILE reference
+		f0 := w.Files[0]
+		w.Files = append(w.Files, &SFile{Tag: "j0", Dir: f0.Dir, Base: f0.Defs[0] + ".json", RootObj: true})
+		typeNameFile = true
+	}
 	if feat.UntypedRecRoot {
 		uy := rapid.IntRange(0, 2).Draw(t, "untypedyaml") == 0
 		uf := &SFile{Tag: "u0", Base: "u0f.json", RootObj: true, YAML: uy}
@@ -554,6 +563,15 @@ func genWorld(t *rapid.T, maxFiles int, recCombo, http, shadows bool) *World {
 	}
 	// options
 	w.Opts = drawOptions(t, w, npkg)
+	if typeNameFile {
+		hasJSON := false
+		for _, e := range w.Opts.ResolveExt {
+			hasJSON = hasJSON || e == ".json"
+		}
+		if !hasJSON {
+			w.Opts.ResolveExt = append(w.Opts.ResolveExt, ".json")
+		}
+	}
 	if feat.Shadow {
 		out := w.Opts.Output
 		if out == "" {
@@ -1373,7 +1391,7 @@ func (g *genCtx) mayRequire(v any) bool {
 
 // isSpecial: shadow / extension-shadow files (referenced only by forced refs).
 func isSpecial(f *SFile) bool {
-	return strings.HasPrefix(f.Tag, "s") || strings.HasPrefix(f.Tag, "e") || strings.HasPrefix(f.Tag, "w") || strings.HasPrefix(f.Tag, "h") || strings.HasPrefix(f.Tag, "u")
+	return strings.HasPrefix(f.Tag, "s") || strings.HasPrefix(f.Tag, "e") || strings.HasPrefix(f.Tag, "w") || strings.HasPrefix(f.Tag, "h") || strings.HasPrefix(f.Tag, "u") || strings.HasPrefix(f.Tag, "j")
 }
 
 // forcedRefs adds the discriminating references to the root struct of file f.
@@ -1410,6 +1428,9 @@ func (g *genCtx) forcedRefs(props Obj) Obj {
 				}
 			}
 		}
+	}
+	if jf := g.w.File("j0"); jf != nil && f == g.w.Files[0] {
+		add(strings.TrimSuffix(jf.Base, ".json"), "j0", "", "typename")
 	}
 	if g.feat.UntypedRecRoot && f == g.w.Files[0] {
 		if uf := g.w.File("u0"); uf != nil {
